@@ -269,7 +269,7 @@ distinct = distinct (n, k, p); oracle = result is the newest populated directory
         }
     });
     // ---- (a) order-type invariance: non-uniform gaps --------------------------------------------------------
-    let n_gap = ctx.tier.pick(3_000u64, 200_000u64);
+    let n_gap = ctx.tier.pick(3_000u64, 600_000u64);
     par_cases(ctx, n_gap, |i, obs| {
         let mut rng = Rng::derive(seed, 15, i);
         let n = *rng.pick(&[999usize, 999, 64, 17, 2, 3, 100, 998, 1000]);
@@ -300,7 +300,7 @@ distinct = distinct (n, k, p); oracle = result is the newest populated directory
         }
     }
     let mut rng = Rng::derive(seed, 15, 1 << 40);
-    for _ in 0..ctx.tier.pick(24, 2_000) {
+    for _ in 0..ctx.tier.pick(24, 30_000) {
         let nw = rng.urange(1, 999);
         let p = match rng.below(5) {
             0 => rng.urange(1, 10),
